@@ -125,6 +125,7 @@ impl RngCore for FaultRng {
     }
 
     fn fill_bytes(&mut self, dest: &mut [u8]) {
+        crate::coop::yield_point("external_rng");
         self.calls += 1;
         if let RngMode::PanicAt(i, _) = self.mode {
             if self.calls == i {
